@@ -30,7 +30,7 @@ COMPONENTS = {"real": ["yowsup.axolotl.manager (level_prekeys, load_unsent_preke
                        "life-cycle model"]}
 ASSUMPTIONS = ["six 1.17 shim", "actor assumption", "SQLite atomic commit trusted (crash = rollback of the open transaction)",
                "a crash inside confirmation processing may leave the batch on either side of that one transition"]
-BUDGET = {"quick": (600, 150), "thorough": (20000, 2400)}
+BUDGET = {"quick": (600, 150), "thorough": (150000, 2700)}
 FAULTS = ["upload_error", "upload_connection_lost", "crash_sql_boundary", "clean_restart", "srv_replay_first_message"]
 PROBES = ["unconfirmed_upload_reoffered", "confirmed_not_reoffered", "count_request_upload", "prekey_consumed",
           "replay_refused", "crash_during_generation", "crash_during_confirmation", "signature_verified",
